@@ -12,5 +12,5 @@ git -C "$W" apply "$PATCH" || { echo "patch does not apply"; exit 2; }
 if [ $BASE = 1 ]; then /verif/tools/baseline.sh "$W"; fi
 for c in "$@"; do
   echo "== $c on mutant $(basename $(dirname $PATCH))/$(basename $PATCH)"
-  (cd /verif && VERIF_REPO="$W" ./check "$c" --tier ${MUT_TIER:-quick}; echo "rc=$?")
+  (cd ${VERIF_HOME:-/verif} && VERIF_REPO="$W" ./check "$c" --tier ${MUT_TIER:-quick}; echo "rc=$?")
 done
